@@ -135,7 +135,7 @@ func verifC04NewServer(base string, vols []string) (*verifC04Server, error) {
 	cluster.Volumes = map[string]arvados.Volume{}
 	s := &verifC04Server{cluster: cluster}
 	for i, v := range vols {
-		if len(v) != 2 || (v[0] != 'w' && v[0] != 'r') || (v[1] != 's' && v[1] != 'n') {
+		if len(v) != 2 || (v[0] != 'w' && v[0] != 'r' && v[0] != 'a') || (v[1] != 's' && v[1] != 'n') {
 			return nil, fmt.Errorf("hist: bad volume spec %q", v)
 		}
 		root := filepath.Join(base, fmt.Sprintf("v%d", i))
@@ -143,8 +143,13 @@ func verifC04NewServer(base string, vols []string) (*verifC04Server, error) {
 			return nil, err
 		}
 		params, _ := json.Marshal(map[string]interface{}{"Root": root, "Serialize": v[1] == 's'})
-		cluster.Volumes[verifC04UUID(i)] = arvados.Volume{
-			Driver: "Directory", DriverParameters: params, ReadOnly: v[0] == 'r', Replication: 1}
+		vol := arvados.Volume{Driver: "Directory", DriverParameters: params, ReadOnly: v[0] == 'r', Replication: 1}
+		if v[0] == 'a' {
+			// read-only for THIS server only (Volumes.*.AccessViaHosts.<url>.ReadOnly): the mount is
+			// read-only although the volume's own ReadOnly flag is false
+			vol.AccessViaHosts = map[arvados.URL]arvados.VolumeAccess{arvados.URL{}: {ReadOnly: true}}
+		}
+		cluster.Volumes[verifC04UUID(i)] = vol
 		s.roots = append(s.roots, root)
 		s.uuids = append(s.uuids, verifC04UUID(i))
 	}
@@ -267,8 +272,6 @@ func (s *verifC04Server) plant(vol, hi int, good bool, mtime time.Time, trashDea
 	return os.Chtimes(p, mtime, mtime)
 }
 
-func verifC04Round(x float64) int { return int(math.Floor(x + 0.5)) }
-
 // listing prints every file of every volume in canonical form:
 //   block  h<i>:<g|c>:<age units>          trash  h<i>.T<remaining units>:<g|c>:<age units>
 func (s *verifC04Server) listing(now time.Time) string {
@@ -281,7 +284,7 @@ func (s *verifC04Server) listing(now time.Time) string {
 			}
 			name := info.Name()
 			data, _ := ioutil.ReadFile(path)
-			age := verifC04Round(float64(now.Sub(info.ModTime())) / float64(verifC04Unit))
+			age := int(math.Floor((float64(now.Sub(info.ModTime())) + float64(verifC04Unit)/4) / float64(verifC04Unit)))
 			cls := func(hi int) string {
 				if bytes.Equal(data, verifC04Body(hi)) {
 					return "g"
@@ -482,8 +485,35 @@ func verifC04Hist(base string, f []string) (string, error) {
 					if resp.Code == 200 && !bytes.Equal(resp.Body.Bytes(), verifC04Body(hi)) {
 						r = "200bad"
 					}
-				case p[0] == "del" && len(p) == 2, p[0] == "udel" && len(p) == 2:
-					resp := s.do("DELETE", "/"+h, nil, p[0] == "del")
+				case (p[0] == "del" || p[0] == "udel" || p[0] == "ndel" || p[0] == "odel") && len(p) == 2:
+					var stamped time.Time
+					if p[0] == "ndel" || p[0] == "odel" {
+						// every copy of h gets an age half a second below (ndel) / above (odel) the TTL,
+						// right before the request. For ndel the wall clock is first brought into the
+						// first third of a second, so that mtime+TTL falls into the same whole second
+						// as the request (the boundary a whole-second comparison gets wrong).
+						off := 500 * time.Millisecond
+						if p[0] == "odel" {
+							off = -off
+						} else {
+							for f := time.Now().Nanosecond(); f < 50e6 || f > 350e6; f = time.Now().Nanosecond() {
+								time.Sleep(10 * time.Millisecond)
+							}
+						}
+						stamped = time.Now()
+						mt := stamped.Add(-s.cluster.Collections.BlobSigningTTL.Duration()).Add(off)
+						for vi := range vols {
+							if _, err := os.Stat(s.blockPath(vi, hi)); err == nil {
+								if err := os.Chtimes(s.blockPath(vi, hi), mt, mt); err != nil {
+									return "", err
+								}
+							}
+						}
+					}
+					resp := s.do("DELETE", "/"+h, nil, p[0] != "udel")
+					if p[0] == "ndel" && time.Since(stamped) > 400*time.Millisecond {
+						return "", errVerifC04Slow
+					}
 					r = strconv.Itoa(resp.Code)
 					if resp.Code == 200 {
 						var jr struct {
